@@ -1,5 +1,5 @@
 CONSTANTS
-  DocIds = {"D1", "D2", "D3", "D4", "D5", "D6"}
+  DocIds = {"D1", "D2", "D3", "D4", "D5", "D6", "D7"}
   Group = "typedef"
   MaxNoise = 2
 INIT Init
